@@ -412,7 +412,9 @@ def run(ctx):
                 "base table read in the same query, other let, column, std function, SQL keyword, compiler-generated name, module path "
                 "segments) wherever PRQL's scoping keeps the program valid; both versions "
                 "compiled with the real compiler for sqlite and executed on the same database; a case is (base program, rewrite kind, site); "
-                "non-trivial = both compile and the base returns rows")
+                "non-trivial = both compile and the base returns rows; directed stream shared-let (tools/sharedlet.py): a sorted prefix named ONCE by a let and "
+                "read TWICE (main pipeline + join / append argument or further lets, either declaration order), every reader taking rows, x 3 databases, "
+                "base vs rewritten compared as bags")
     if not (br.cargo_ok and br.drv_ok):
         return
     quick = ctx.tier == "quick"
